@@ -10,6 +10,19 @@
 #include "Source/Lib/Encoder/ASM_AVX2/av1_quantize_avx2.c"
 #include "c07_quant_c.inc"
 #define N 16
+#ifndef KIND
+#define KIND 0
+#endif
+#if KIND == 0
+#define Q_C svt_av1_quantize_fp_c
+#define Q_S svt_av1_quantize_fp_avx2
+#elif KIND == 1
+#define Q_C svt_av1_quantize_fp_32x32_c
+#define Q_S svt_av1_quantize_fp_32x32_avx2
+#else
+#define Q_C svt_av1_quantize_fp_64x64_c
+#define Q_S svt_av1_quantize_fp_64x64_avx2
+#endif
 #ifndef DQ0
 #define DQ0 83
 #define DQ1 8
@@ -29,8 +42,8 @@ void harness(void) {
     }
     for (int k = 2; k < 8; k++) { deq[k] = deq[1]; quant[k] = quant[1]; rnd[k] = rnd[1]; zb[k] = 0; qs[k] = 0; }   /* the tables hold 8 entries: DC, then AC replicated */
     uint16_t e1 = 0xAAAA, e2 = 0x5555;
-    svt_av1_quantize_fp_c(coeff, N, zb, rnd, quant, qs, q1, d1, deq, &e1, scan, iscan);
-    svt_av1_quantize_fp_avx2(coeff, N, zb, rnd, quant, qs, q2, d2, deq, &e2, scan, iscan);
+    Q_C(coeff, N, zb, rnd, quant, qs, q1, d1, deq, &e1, scan, iscan);
+    Q_S(coeff, N, zb, rnd, quant, qs, q2, d2, deq, &e2, scan, iscan);
     for (int i = 0; i < N; i++) { V_ASSERT(q1[i] == q2[i], "quantised coefficient identical"); V_ASSERT(d1[i] == d2[i], "dequantised coefficient identical"); }
     V_ASSERT(e1 == e2, "end-of-block position identical");
     V_END();
